@@ -110,6 +110,14 @@ def corpus():
         _arr(SCENARIOS[0], 0, [[500, 1]]),
         _arr(SCENARIOS[0], 1, [[300, 0], [500, 1]]),
         _arr(SCENARIOS[1], 0, [[400, 1], [400, 0]]),
+        # two requests that both fail in the body reader and are answered from the SAME pre-built error object of
+        # errors_map (400 malformed chunked / 413 too large), one asking for JSON, with different URL lengths
+        _arr([_call('tA', [['body_read']], method='POST', form='f=tAf', chunked_bad=True, accept='application/json'),
+              _call('tC', [['see'], ['body_read']], method='POST', form='f=tCf', chunked_bad=True, pad='zzzzzzzzzzz')],
+             0, [[990, 1]], max_body=30),
+        _arr([_call('tA', [['body_read']], method='POST', form='f=tAf' + 'y' * 40, too_big=True),
+              _call('tC', [['body_read']], method='POST', form='f=tCf' + 'y' * 40, too_big=True,
+                    accept='application/json', pad='zzz')], 1, [[990, 0]], max_body=30),
         _arr([_call('tA', [['see'], ['boom']]), _call('tC', [['see'], ['copy'], ['see']]),
               _call('tE', [['hdr', 'X-C', 'tEh'], ['status', 418], ['see']])], 0, [[300, 1], [300, 2], [300, 0]]),
     ]
@@ -203,16 +211,27 @@ def _gen_script(rng, tok):
 def _gen_arr(rng):
     n = rng.choice([2, 2, 2, 3])
     calls = []
+    bodyerr = rng.random() < 0.3      # requests whose body cannot be read: the pre-built 400 / 413 of errors_map
     for i in range(n):
         tok = 't%s' % 'ACE'[i]
-        kw = {}
+        kw = dict(pad='z' * rng.choice([0, 0, 3, 11]))
+        if bodyerr and rng.random() < 0.85:
+            kw.update(method='POST', form='f=%sf' % tok + 'y' * 40)
+            kw['chunked_bad' if rng.random() < 0.6 else 'too_big'] = True
+            if rng.random() < 0.5:
+                kw['accept'] = 'application/json'
+            script = [['see']] * rng.randrange(0, 2) + [['hdr', 'X-A', tok + 'h']] * rng.randrange(0, 2) + [['body_read']]
+            calls.append(_call(tok, script, **kw))
+            continue
         if rng.random() < 0.4:
-            kw = dict(method='POST', form='f=%sf&g=%sg' % (tok, tok))
+            kw.update(method='POST', form='f=%sf&g=%sg' % (tok, tok))
         if rng.random() < 0.4:
             kw['cookie'] = 'c=%sc' % tok
+        if rng.random() < 0.2:
+            kw['accept'] = 'application/json'
         calls.append(_call(tok, _gen_script(rng, tok), **kw))
     switches = [[rng.randrange(1, 1000), rng.randrange(n)] for _ in range(rng.randrange(1, 5))]
-    return _arr(calls, rng.randrange(n), switches)
+    return _arr(calls, rng.randrange(n), switches, max_body=30 if bodyerr else None)
 
 
 def gen(rng, n):
@@ -261,6 +280,7 @@ def _solo_ops(case):
 
 
 _BATCH_FAIL = {}
+_ENUM = {}
 
 
 def _batch_worker(args):
@@ -281,10 +301,13 @@ def _run_batch(case):
     import multiprocessing
     base = _arr(SCENARIOS[case['scenario']], abs=True, reuse=True)
     steps = sched.run_arrangement(dict(base, reuse=False))['steps']
-    if steps != case['steps']:
-        # the code changed the number of line steps: enumerate for the steps as they are now
-        pass
-    allsch = sched.enumerate_schedules(steps, case['preempt'])
+    # (if the code changed the number of line steps since the case was made, the schedules are
+    # enumerated for the steps as they are now)
+    ek = (tuple(steps), case['preempt'])
+    if ek not in _ENUM:
+        _ENUM.clear()
+        _ENUM[ek] = sched.enumerate_schedules(steps, case['preempt'])
+    allsch = _ENUM[ek]
     part = allsch[case['lo']:case['hi']]
     nproc = max(1, min(12, (os.cpu_count() or 2) - 2))
     chunk = max(1, (len(part) + nproc * 4 - 1) // (nproc * 4))
@@ -390,7 +413,7 @@ def classify(case, obs):
     kinds = set()
     for c in case['calls']:
         for a in c['script']:
-            if a[0] in ('copy', 'abort', 'boom', 'gen', 'cookie', 'form_see', 'status'):
+            if a[0] in ('copy', 'abort', 'boom', 'gen', 'cookie', 'form_see', 'status', 'body_read'):
                 kinds.add(a[0])
     return 'arr/threads=%d/preempt=%d/%s' % (len(case['calls']), len(obs.get('switches') or []),
                                            '+'.join(sorted(kinds)) or 'plain')
